@@ -289,6 +289,60 @@ fn run_parties(plan: &Value, rec: &mut Rec) {
         let sk2 = sk.clone();
         let out = open(&stream, || (vec![], vec![], vec![], vec![sk2]), true, max);
         scenario("right-session-key", false, true, "", out, rec);
+        // f'. two PKESKs that decrypt to *different* session keys (the second one re-made by the byzantine stub
+        //     around another session key), both recipients' keys presented, cross-check requested
+        if recipients.len() >= 2 && !decoyed {
+            if let Ok(pk) = deframe(&stream) {
+                let pkesks: Vec<usize> = pk.iter().enumerate().filter(|(_, p)| p.tag == 1).map(|(i, _)| i).collect();
+                if pkesks.len() == recipients.len() {
+                    let which = 1 + pick % (recipients.len() - 1); // never the first: the deviating key is recovered later
+                    let victim = recipients[which];
+                    let sub = &victim.public.public_subkeys[0];
+                    let mut rng = crate::rng::SimRng::new(pick as u64, "c18conflict", false);
+                    let other_raw: pgp::composed::RawSessionKey = match &wrong {
+                        PlainSessionKey::V3_4 { key, .. } | PlainSessionKey::V6 { key } | PlainSessionKey::V5 { key } => key.clone(),
+                    };
+                    let remade = if v2 {
+                        pgp::packet::PublicKeyEncryptedSessionKey::from_session_key_v6(&mut rng, &other_raw, sub)
+                    } else {
+                        pgp::packet::PublicKeyEncryptedSessionKey::from_session_key_v3(&mut rng, &other_raw, workload::sym(jstr(&cfg["enc"], "sym")), sub)
+                    };
+                    if let Ok(body) = remade.and_then(|p| pgp::ser::Serialize::to_bytes(&p)) {
+                        let mut out = Vec::new();
+                        for (i, p) in pk.iter().enumerate() {
+                            if i == pkesks[which] {
+                                out.extend_from_slice(&frame(1, &body, &LenForm::NewMinimal).unwrap());
+                            } else {
+                                out.extend_from_slice(&stream[p.start..p.end]);
+                            }
+                        }
+                        let spliced = Arc::new(out);
+                        let first = recipients[0];
+                        for (name, order) in [("conflicting-pkesk:recipient-order", vec![first, victim]), ("conflicting-pkesk:reverse-order", vec![victim, first])] {
+                            let pws: Vec<String> = vec![first.password.to_string(), victim.password.to_string()];
+                            let o2 = order.clone();
+                            let out = open(&spliced, || (o2, pws, vec![], vec![]), false, max);
+                            let mut h = Fnv(shape.0);
+                            h.str(name);
+                            rec.eval(h.0, true);
+                            rec.count("scenario:conflicting-pkesk");
+                            rec.count("fault:F-byz:pkesk-with-other-session-key");
+                            let mut vplan = plan.clone();
+                            vplan["scenario"] = json!(name);
+                            match out {
+                                Err(p) => rec.violation("panic", &norm_loc(&p.loc), format!("cross-check panicked: {}", p.msg), vplan),
+                                Ok(Outcome::Plain(_)) => rec.violation("conflict-not-reported", "conflicting-pkesk", format!("{name}: two PKESKs yield different session keys, both keys were presented with abort_early = false, and one was silently chosen ({desc})"), vplan),
+                                Ok(Outcome::Err(e, _)) => {
+                                    if !e.contains("inconsistent") {
+                                        rec.count("probe:conflicting-pkesk-other-error");
+                                    }
+                                }
+                            }
+                        }
+                    }
+                }
+            }
+        }
         // f. cross-check: right and wrong session key together must be reported as a conflict
         let (a, b) = (sk.clone(), wrong.clone());
         let out = open(&stream, || (vec![], vec![], vec![], vec![a, b]), false, max);
